@@ -139,3 +139,30 @@ class Canon:
         if k not in self.d:
             self.d[k] = len(self.d)
         return self.d[k]
+
+
+def decorated_type(kind):
+    """Integer TypeDecorator with value-preserving SQL-level wrappers: bind_expression()
+    renders `? + 0`, column_expression() renders `col + 0`"""
+    from sqlalchemy import Integer
+    from sqlalchemy.types import TypeDecorator
+
+    if kind in (None, "int"):
+        return Integer
+
+    class Wrapped(TypeDecorator):
+        impl = Integer
+        cache_ok = True
+
+        if kind in ("bindexpr", "both"):
+
+            def bind_expression(self, bindvalue):
+                return bindvalue + 0
+
+        if kind in ("colexpr", "both"):
+
+            def column_expression(self, col):
+                return col + 0
+
+    Wrapped.__name__ = "Wrapped_" + kind
+    return Wrapped
